@@ -474,6 +474,25 @@ func (w *World) projectState() M {
 		sess = []M{}
 	}
 	post["sess"] = sess
+	// sessions that are no longer registered but whose frame worker was not stopped
+	dead := []int{}
+	live := map[*models.Session]bool{}
+	for _, s := range regs {
+		live[s] = true
+		if _, ok := w.sessObjs[s]; !ok {
+			w.sessObjs[s] = len(w.sessObjs) + 1
+		}
+	}
+	for s := range w.sessObjs {
+		if live[s] {
+			continue
+		}
+		if tk, ok := s.VerifFrameTicker().(*verifrt.Ticker); ok && tk != nil && !tk.Stopped() {
+			dead = append(dead, w.uuidIndex(s.SessionUUID))
+		}
+	}
+	sort.Ints(dead)
+	post["dead"] = dead
 	post["ucur"] = len(w.uuids)
 	post["gcur"] = len(w.grids)
 
